@@ -2,11 +2,12 @@
    The screen is the line-level terminal of Term.v applied to the Write calls of the
    acceptor (Container.step); proofs in ContainerOut.v and Term.v.
    Columns ("each frame fits in columns") are C09/C07's width theorems.
-   Modelled, not proved: the byte-level ANSI interpretation (the harness's terminal
-   emulator turns bytes into the items of this model and the c04 monitor checks the
-   emulated screen); the terminal's height enters only through
-   [C04_frame_fits_rows] and [C04_redraw_needs_a_spare_row]. *)
-From MPB Require Import Base BaseProofs BarState Container ContainerProofs ContainerOut Term GenChecks.
+   The byte level (cwriter's CSI sequences and line feeds) is Vt.v: a terminal that reads
+   the encoded bytes gets the frames back, and its screen is Term's.  Outside the model:
+   bytes inside a row that are themselves control sequences (user decorators may emit
+   colours; the harness's parser strips them) and line wrapping (excluded by C07/C09's
+   width bounds). *)
+From MPB Require Import Base BaseProofs BarState Container ContainerProofs ContainerOut Term GenChecks Vt VtProofs.
 From MPB.gen Require Import GenApi.
 
 (* every frame replaces exactly the live rows of the frame before it: what is above them
@@ -76,6 +77,23 @@ Proof.
   apply redraw_in_place_h; auto. lia.
 Qed.
 Print Assumptions C04_frames_redraw_on_the_terminal.
+
+(* ---- down to bytes: cwriter's encoding (lines ended by LF; ESC [ n A ESC [ J in front of the next frame) and the
+   terminal's reading of it (Vt.v; the extracted reader also replays the real bytes of the pty family) ---- *)
+
+(* a terminal reads back exactly the frames that were encoded *)
+Theorem C04_terminal_reads_back_frames : forall f,
+  Forall wf_item f -> lex (LGround []) (encode f) = Some (LGround [], flat_map toks_of f).
+Proof. exact lex_encode. Qed.
+Print Assumptions C04_terminal_reads_back_frames.
+
+(* and the screen it is left with is the one Term.apply_frame_h computes on items, whatever the bytes of the lines *)
+Theorem C04_bytes_to_screen : forall (bytes : item -> list Z) h scr f,
+  Forall wf_item (map (render bytes) f) ->
+  exists toks, lex (LGround []) (encode (map (render bytes) f)) = Some (LGround [], toks) /\
+               fold_left (tok_step h) toks (map bytes scr, []) = (map bytes (apply_frame_h h scr f), []).
+Proof. exact bytes_to_screen. Qed.
+Print Assumptions C04_bytes_to_screen.
 
 Example C04_nonvacuous :
   exists s, run (init_cst false true false)
